@@ -256,21 +256,50 @@ theorem nearestPowerOf2_range (n : Int) (h4 : 4 ≤ n) (h1024 : n ≤ 1024) :
     exact pow2_mem (k - 1) (by omega) (by omega)
   · exact pow2_mem k hk2 hk10
 
-open Gen.ValidateHtj2k in
-theorem htj2k_validate_closed (p : Parameters) :
-    (Parameters.Validate p).1 =
-      { Quality := if p.Quality < 1 then 1 else if p.Quality > 100 then 100 else p.Quality,
-        BlockWidth := nearestPowerOf2 (if p.BlockWidth < 4 then 4 else if p.BlockWidth > 1024 then 1024 else p.BlockWidth),
-        BlockHeight := nearestPowerOf2 (if p.BlockHeight < 4 then 4 else if p.BlockHeight > 1024 then 1024 else p.BlockHeight),
-        NumLevels := if p.NumLevels < 0 then 0 else if p.NumLevels > 6 then 6 else p.NumLevels } := by
-  obtain ⟨q, bw, bh, nl⟩ := p
-  unfold Parameters.Validate
-  simp only [decide_eq_true_eq]
-  by_cases h1 : q < 1 <;> by_cases h2 : q > 100 <;> by_cases h3 : bw < 4 <;> by_cases h4 : bw > 1024 <;>
-    simp only [h1, h2, h3, h4, if_true, if_false] <;>
-    by_cases h5 : bh < 4 <;> by_cases h6 : bh > 1024 <;> by_cases h7 : nl < 0 <;> by_cases h8 : nl > 6 <;>
-    simp only [h5, h6, h7, h8, if_true, if_false]
+/-- `if x < lo then lo else if x > hi then hi else x` -/
+def clampI (lo hi x : Int) : Int := if x < lo then lo else if x > hi then hi else x
 
+theorem clampI_range (lo hi x : Int) (h : lo ≤ hi) : lo ≤ clampI lo hi x ∧ clampI lo hi x ≤ hi := by
+  unfold clampI
+  repeat' split
+  all_goals omega
+
+/-! htj2k `Validate`, field by field. The proofs push the projection through whatever `if`s the
+    generated text contains (`apply_ite`), drop the branches that do not touch the field
+    (`ite_self`) and split on the rest, so they do not depend on the let/if layout of the
+    translation (unconditional store, store-if-changed, `else if` vs nested `if` all close). -/
+section
+open Gen.ValidateHtj2k
+
+theorem htj2k_validate_quality (p : Parameters) :
+    (Parameters.Validate p).1.Quality = clampI 1 100 p.Quality := by
+  obtain ⟨q, bw, bh, nl⟩ := p
+  simp only [Parameters.Validate, apply_ite Parameters.Quality, ite_self, clampI, decide_eq_true_eq]
+  repeat' split
+  all_goals simp_all
+
+theorem htj2k_validate_levels (p : Parameters) :
+    (Parameters.Validate p).1.NumLevels = clampI 0 6 p.NumLevels := by
+  obtain ⟨q, bw, bh, nl⟩ := p
+  simp only [Parameters.Validate, apply_ite Parameters.NumLevels, ite_self, clampI, decide_eq_true_eq]
+  repeat' split
+  all_goals simp_all
+
+theorem htj2k_validate_width (p : Parameters) :
+    (Parameters.Validate p).1.BlockWidth = nearestPowerOf2 (clampI 4 1024 p.BlockWidth) := by
+  obtain ⟨q, bw, bh, nl⟩ := p
+  simp only [Parameters.Validate, apply_ite Parameters.BlockWidth, ite_self, clampI, decide_eq_true_eq]
+  repeat' split
+  all_goals simp_all
+
+theorem htj2k_validate_height (p : Parameters) :
+    (Parameters.Validate p).1.BlockHeight = nearestPowerOf2 (clampI 4 1024 p.BlockHeight) := by
+  obtain ⟨q, bw, bh, nl⟩ := p
+  simp only [Parameters.Validate, apply_ite Parameters.BlockHeight, ite_self, clampI, decide_eq_true_eq]
+  repeat' split
+  all_goals simp_all
+
+end
 
 /-! ## RLE: the `tempBuffer` overrun flag of the model is never raised (C01's encoder invariant) -/
 
